@@ -43,10 +43,13 @@ EndEv ==
                /\ \A k \in DOMAIN fr : fr[k].wf /\ fr[k].tx \in Ids
                /\ \A i \in Ids : Cardinality({k \in DOMAIN fr : fr[k].tx = i}) = 1
       model == Contiguous(wire) /\ AllSent
+      stuck == "stuck" \in DOMAIN e /\ e.stuck
   IN
   /\ e.op = "end"
-  /\ (~whole => Report("VIOL", e, [sig |-> "stream-not-whole-transactions", frames |-> fr, pending |-> e.pending, wire |-> wire]))
-  /\ (whole # model => Report("DRIFT", e, [whole |-> whole, model |-> model, wire |-> wire]))
+  (* a run whose senders had not all finished when the harness gave up waiting (reported as drift by StuckEv) is
+     not judged: a transaction may simply not have been written yet *)
+  /\ (~whole /\ ~stuck => Report("VIOL", e, [sig |-> "stream-not-whole-transactions", frames |-> fr, pending |-> e.pending, wire |-> wire]))
+  /\ (whole # model /\ ~stuck => Report("DRIFT", e, [whole |-> whole, model |-> model, wire |-> wire]))
   /\ UNCHANGED <<ovars, alone, bad>>
 
 StuckEv == Log[l].op = "stuck" /\ Report("DRIFT", Log[l], "senders did not finish") /\ UNCHANGED <<ovars, alone, bad>>
